@@ -100,11 +100,14 @@ CLAIMS = {
                 "bban_length positions; iban_length = +4 <= 34; two-capital country codes, no duplicates; positions in bounds and "
                 "pairwise disjoint; bank entry country in the table, BIC null/empty/ISO-9362-valid, bank code empty or conforming - "
                 "length and classes - to the country's bank-identifying field) evaluated by vm_compute over every row and every "
-                "entry the tree bundles now (exhaustive over the finite data, redone on every run). 'Every listed bank occurs in "
-                "a valid IBAN and is found again' is exercised through the real API for every entry (thorough) / 800 entries (quick). "
+                "entry the tree bundles now (exhaustive over the finite data, redone on every run). C17_every_bank: for every entry "
+                "with a bank code there is a structurally conforming BBAN carrying it in the bank-identifying field (a witness "
+                "built and checked for each of the entries by vm_compute: C17_occurs_obl), IBAN.from_bban of it is a valid IBAN, "
+                "and BBAN.bank of it is a listed entry with that code (index refinement, Proofs/BankFacts.v). The same is "
+                "exercised through the real API for every entry (thorough) / 800 entries (quick). "
                 "National-algorithm field requirements are part of C06.",
         "note": COMMON_NOTE,
-        "technique": "Coq: exhaustive evaluation of decidable well-formedness predicates over the regenerated data (forallb = true by vm_compute) + API stream",
+        "technique": "Coq: exhaustive evaluation of decidable well-formedness predicates and of a per-entry witness over the regenerated data (forallb = true by vm_compute) + generic lookup lemma + API stream",
         "design_ref": "DESIGN.md §4 C17",
     },
     "C18": {
@@ -204,14 +207,16 @@ CLAIMS = {
                 "unknown country), C13_library_errors_only (no foreign exception, for clean pins and draws), C13_pins / C13_iban_pins (with clean pins and draws, in a country with positions: the BBAN has "
                 "the country's length, is clean text, and every pinned component of its field's width other than the computed "
                 "check-digit field is read back unchanged) - the exact side conditions are the three open findings' complements. "
-                "Not proved: that a BBAN.random result conforms to the structure classes at filler positions, and the listed-bank "
-                "clause; these and reproducibility (the model is a function of the oracle outputs; the tie is that it is fed the "
+                "C13_listed_bank (a registry-based draw with bank and branch not pinned carries the chosen entry's code in the "
+                "bank-identifying field, so the bank looked up from the result is a listed bank of that country - for the "
+                "countries whose entries all carry a code of the field's width, all_fit, e.g. DE GB NL). "
+                "Not proved: that a BBAN.random result conforms to the structure classes at every position; this and reproducibility (the model is a function of the oracle outputs; the tie is that it is fed the "
                 "very choices the implementation saw, via a Random subclass and a wrapped Rstr.xeger, and must return the same "
                 "object) are decided by the streams: table-driven oracle (validity/conformity, country, pins, listed bank, second "
                 "equally seeded call identical) and a subprocess sweep over PYTHONHASHSEED. Fixed: pinned branch overridden "
                 "(b2d8752), out-of-class pins on other components (9a4a92a). Open findings: pinned computed digits replaced, "
                 "over-long pin truncated, pin ignored without positions.",
-        "note": COMMON_NOTE + " rstr and random.Random are oracles (their outputs are inputs of the model); the C13 stream oracle is Python written against Gen/facts.json. Partial: structure conformity of BBAN.random at filler positions, listed-bank clause and hash-seed independence are stream-checked, not proved.",
+        "note": COMMON_NOTE + " rstr and random.Random are oracles (their outputs are inputs of the model); the C13 stream oracle is Python written against Gen/facts.json. Partial: structure conformity of BBAN.random and hash-seed independence are stream-checked, not proved.",
         "technique": "Coq proof over a model with explicit randomness oracle (validity, country, error class, pins) + instrumented correspondence + table-driven property oracle + hash-seed subprocess sweep",
         "design_ref": "DESIGN.md §4 C13",
     },
